@@ -278,6 +278,27 @@ def main(argv):
                 c.broken.append("correspondence AutoProbing model vs util/probing_hash_table.hh: %d disagreement(s); smallest: history %r: after op %d model=%r impl=%r" % (
                     len(dis), l[:300], j - 1, (ta[j] if j < len(ta) else "<end>")[:200], (tb[j] if j < len(tb) else "<end>")[:200]))
 
+    # --- which proof cases of C13_double_preserves the histories exercise (from the implementation's own dumps):
+    #     doublings with / without a parked (wrapped) prefix, entries that move to the new half / stay
+    for (b, m, i, ops), o in zip(cases, impl_out[len(size_lines):]):
+        if not m.endswith("f") or o in ("TIMEOUT", "SKIPPED") or o.startswith("CRASH"):
+            continue
+        prev = None
+        for tok in o.split(" "):
+            st = parse_state(tok)
+            if st is None:
+                break
+            if prev is not None and st[1] == 2 * prev[1]:
+                before = [x.split(":")[0] for x in prev[4].split(",")]
+                after = [x.split(":")[0] for x in st[4].split(",")]
+                d = c.cov["distribution"]
+                key = "double/parked-prefix" if before and before[0] != "0" else "double/no-parked-prefix"
+                d[key] = d.get(key, 0) + 1
+                moved = sum(1 for x in after[prev[1]:] if x != "0")
+                d["double/entries-moved-to-new-half"] = d.get("double/entries-moved-to-new-half", 0) + moved
+                d["double/entries-staying-in-old-half"] = d.get("double/entries-staying-in-old-half", 0) + sum(1 for x in after[:prev[1]] if x != "0")
+            prev = st
+
     # --- direct oracle on the implementation (independent of the model)
     nfail = 0
     for (b, m, i, ops), o in zip(cases, impl_out[len(size_lines):]):
